@@ -589,11 +589,128 @@ def run_after_exception(case, rec):
         rec.fail(f"real-lock:after-exception:snapshot-differs:{op}", {"snapshot": out.get("res"), "committed": committed, "how": how})
 
 
+MID_OPS = ["to_dict_list:mapper", "save:mapper", "copy:predicate", "filtered:predicate", "to_dotfile:node_mapper"]
+
+
+def run_reader_first(case, rec):
+    """The reader is FIRST: its snapshot operation (one with a user callback) is in the middle of the tree when a
+    writer arrives.  The callback gives the writer 0.3 s to get in - which it cannot, if the operation holds the lock
+    for the whole snapshot; the result must be the state before or after the writer's section, never a mix.
+    With `twin`: the reader is meanwhile inside `with other:` of ANOTHER tree that carries the same name."""
+    op = case["op"]
+    rec.evals += 1
+    rec.nt(True)
+    rec.cls("mode=reader-first" + ("+twin" if case.get("twin") else ""))
+    tree = Tree("T")
+    a = tree.add("base1")
+    a.add("b1a")
+    for i in range(6):
+        tree.add(f"m{i}")
+    tree.add("base2").add("b2a")
+    committed = [tshape(tree)]
+    twin = Tree("T")  # same name, unrelated
+    twin.add("unrelated")
+    calls = [0]
+    mid = threading.Event()
+    done = threading.Event()
+
+    def pause():
+        calls[0] += 1
+        if calls[0] == 4:
+            mid.set()
+            done.wait(0.3)  # the writer's window
+
+    def mapper(node, data):
+        pause()
+        return None
+
+    def pred(node):
+        pause()
+        return SelectBranch()  # (keeps the branch without the duplicate of known finding D11)
+
+    out = {}
+
+    def reader():
+        try:
+            if op == "to_dict_list:mapper":
+                res = tree.to_dict_list(mapper=mapper)
+                out["res"] = [[d["data"], _kids(d)] for d in res]
+            elif op == "save:mapper":
+                buf = io.StringIO()
+                tree.save(buf, mapper=mapper)
+                doc = json.loads(buf.getvalue())
+                nodes, top, kids = [None], [], {0: None}
+                kids[0] = top
+                for i, (p_, payload) in enumerate(doc["nodes"], 1):
+                    name = payload if isinstance(payload, str) else (nodes[payload][0] if isinstance(payload, int) else payload.get("str", payload.get("s")))
+                    n_ = [name, []]
+                    nodes.append(n_)
+                    kids[i] = n_[1]
+                    kids[p_].append(n_)
+                out["res"] = top
+            elif op == "copy:predicate":
+                out["res"] = tshape(tree.copy(predicate=pred))
+            elif op == "filtered:predicate":
+                out["res"] = tshape(tree.filtered(pred))
+            else:
+                buf = io.StringIO()
+                tree.to_dotfile(buf, node_mapper=mapper, unique_nodes=False)
+                out["res"] = "dot:" + str(sum(1 for ln in buf.getvalue().split("\n") if "->" in ln))
+        except Exception as e:  # noqa: BLE001
+            out["err"] = e
+
+    def reader_in_twin():
+        with twin:
+            reader()
+
+    def writer():
+        mid.wait(30)
+        with tree:
+            # front and end change in one section
+            tree.add("w-front", before=True)
+            tree.first_child().add("w-child")
+            tree.add("w-end")
+            committed.append(tshape(tree))
+        done.set()
+
+    tr = threading.Thread(target=reader_in_twin if case.get("twin") else reader, daemon=True)
+    tw = threading.Thread(target=writer, daemon=True)
+    tr.start()
+    tw.start()
+    tr.join(60)
+    tw.join(60)
+    if tr.is_alive() or tw.is_alive():
+        rec.fail(f"real-lock:reader-first:deadlock:{op}", {"reader_alive": tr.is_alive(), "writer_alive": tw.is_alive()})
+        rec.stop_shard = True
+        return
+    if "err" in out:
+        rec.fail(f"real-lock:reader-first:snapshot-raised:{op}", repr(out["err"])[:200])
+        return
+    res = out.get("res")
+    if isinstance(res, str):
+        # DOT: the number of edges (one per node incl. the root's children) of a committed state
+        ok = any(res == "dot:" + str(_count(c)) for c in committed)
+    else:
+        ok = any(agrees(res, c) for c in committed)
+    if not ok:
+        rec.fail(f"real-lock:reader-first:torn-snapshot:{op}", {"snapshot": res, "committed": committed})
+
+
+def _kids(d):
+    return [[c["data"], _kids(c)] for c in d.get("children", [])]
+
+
+def _count(shape_):
+    return sum(1 + _count(k) for _n, k in shape_)
+
+
 def run_real(case, rec):
     """The owner nests `with tree:` and calls every snapshot operation inside;
     a second thread started meanwhile must come back with a committed state."""
     if case.get("mode") == "after-exception":
         return run_after_exception(case, rec)
+    if case.get("mode") == "reader-first":
+        return run_reader_first(case, rec)
     if case.get("mode"):
         return run_real_special(case, rec)
     op = case["op"]
@@ -671,6 +788,10 @@ def enum_cases(tier):
 
 
 def real_cases(tier):
+    for op in MID_OPS:
+        yield {"mode": "reader-first", "op": op}
+    for op in (MID_OPS[:2] if tier == "quick" else MID_OPS):
+        yield {"mode": "reader-first", "op": op, "twin": True}
     for i, how in enumerate(LEAVE_BY_EXCEPTION):
         for op in ([["to_dict_list", "save", "with+iterate"][i % 3]] if tier == "quick" else ["to_dict_list", "save", "copy", "with+iterate", "copy_to"]):
             yield {"mode": "after-exception", "how": how, "op": op}
